@@ -285,8 +285,10 @@ impl C17 {
     }
 
     // ---------------- raw ----------------
-    /// `abs_sinks`: cells without outgoing edges are abstract-only (no layout view)
-    fn build_raw(g: &Graph, listing: &[usize], abs_sinks: bool) -> (raw::Library, Vec<String>) {
+    /// `variant` 1: cells without outgoing edges are abstract-only (no layout view); 2: every cell has both an
+    /// abstract and a layout view
+    fn build_raw(g: &Graph, listing: &[usize], variant: u8) -> (raw::Library, Vec<String>) {
+        let abs_sinks = variant == 1;
         let names: Vec<String> = (0..g.n).map(|i| format!("c{i}")).collect();
         let ptrs: Vec<Ptr<raw::Cell>> = (0..g.n)
             .map(|i| {
@@ -306,6 +308,12 @@ impl C17 {
                 }
             }
         }
+        if variant == 2 {
+            for i in 0..g.n {
+                let outline = raw::Polygon { points: vec![raw::Point::new(0, 0), raw::Point::new(5, 0), raw::Point::new(5, 5), raw::Point::new(0, 5)] };
+                ptrs[i].write().unwrap().abs = Some(raw::Abstract::new(names[i].clone(), outline));
+            }
+        }
         let mut lib = raw::Library::new("lib", raw::Units::Nano);
         for &i in listing {
             lib.cells.push(ptrs[i].clone());
@@ -316,24 +324,26 @@ impl C17 {
         names.iter().position(|x| x == n).unwrap_or(usize::MAX)
     }
     fn run_raw(&self, g: &Graph, listing: &[usize], key: &str, cx: &mut Cx) {
-        self.run_raw_variant(g, listing, key, false, cx);
+        self.run_raw_variant(g, listing, key, 0, cx);
         if (0..g.n).any(|i| g.adj[i] == 0) {
-            self.run_raw_variant(g, listing, key, true, cx);
+            self.run_raw_variant(g, listing, key, 1, cx);
             cx.tag("raw-abstract-only-sinks");
         }
+        self.run_raw_variant(g, listing, key, 2, cx);
+        cx.tag("raw-both-views");
     }
-    fn run_raw_variant(&self, g: &Graph, listing: &[usize], key: &str, abs_sinks: bool, cx: &mut Cx) {
+    fn run_raw_variant(&self, g: &Graph, listing: &[usize], key: &str, variant: u8, cx: &mut Cx) {
         cx.stats.executions += 2;
         cx.stats.transitions += listing.len() as u64;
-        let (lib, names) = Self::build_raw(g, listing, abs_sinks);
+        let (lib, names) = Self::build_raw(g, listing, variant);
         let res = guard(|| {
             raw::DepOrder::order(&lib)
                 .map(|v| v.iter().map(|p| Self::idx_of(&names, &p.read().unwrap().name)).collect::<Vec<usize>>())
                 .map_err(|e| format!("{e:?}"))
         });
-        self.judge(key, if abs_sinks { "raw-DepOrder+abstract-only-sinks" } else { "raw-DepOrder" }, g, listing, res, cx);
+        self.judge(key, ["raw-DepOrder", "raw-DepOrder+abstract-only-sinks", "raw-DepOrder+both-views"][variant as usize], g, listing, res, cx);
         let res = guard(|| lib.to_proto().map(|p| p.cells.iter().map(|c| Self::idx_of(&names, &c.name)).collect::<Vec<usize>>()).map_err(|e| format!("{e:?}")));
-        self.judge(key, if abs_sinks { "raw-to_proto+abstract-only-sinks" } else { "raw-to_proto" }, g, listing, res, cx);
+        self.judge(key, ["raw-to_proto", "raw-to_proto+abstract-only-sinks", "raw-to_proto+both-views"][variant as usize], g, listing, res, cx);
         // break the reference cycles so that the memory is freed
         for p in lib.cells.iter() {
             if let Ok(mut c) = p.write() {
@@ -391,7 +401,8 @@ impl C17 {
         };
         stack.validate().expect("MACHINERY: empty stack must validate")
     }
-    fn build_tetris(g: &Graph, listing: &[usize], abs_sinks: bool) -> (tetris::library::Library, Vec<String>, Vec<Ptr<tetris::cell::Cell>>) {
+    fn build_tetris(g: &Graph, listing: &[usize], variant: u8) -> (tetris::library::Library, Vec<String>, Vec<Ptr<tetris::cell::Cell>>) {
+        let abs_sinks = variant == 1;
         use tetris::{cell::Cell, instance::Instance, layout::Layout, outline::Outline};
         let names: Vec<String> = (0..g.n).map(|i| format!("t{i}")).collect();
         let ptrs: Vec<Ptr<Cell>> = (0..g.n)
@@ -412,6 +423,12 @@ impl C17 {
                 }
             }
         }
+        if variant == 2 {
+            for i in 0..g.n {
+                let outline = Outline::rect(10 + i as isize, 10).unwrap();
+                ptrs[i].write().unwrap().abs = Some(tetris::abs::Abstract::new(names[i].clone(), 0, outline));
+            }
+        }
         let mut lib = tetris::library::Library::new("tlib");
         for &i in listing {
             lib.cells.push(ptrs[i].clone());
@@ -419,24 +436,26 @@ impl C17 {
         (lib, names, ptrs)
     }
     fn run_tetris(&self, g: &Graph, listing: &[usize], key: &str, cx: &mut Cx) {
-        self.run_tetris_variant(g, listing, key, false, cx);
+        self.run_tetris_variant(g, listing, key, 0, cx);
         if (0..g.n).any(|i| g.adj[i] == 0) {
-            self.run_tetris_variant(g, listing, key, true, cx);
+            self.run_tetris_variant(g, listing, key, 1, cx);
             cx.tag("tetris-abstract-only-sinks");
         }
+        self.run_tetris_variant(g, listing, key, 2, cx);
+        cx.tag("tetris-both-views");
     }
-    fn run_tetris_variant(&self, g: &Graph, listing: &[usize], key: &str, abs_sinks: bool, cx: &mut Cx) {
+    fn run_tetris_variant(&self, g: &Graph, listing: &[usize], key: &str, variant: u8, cx: &mut Cx) {
         cx.stats.executions += 3;
         cx.stats.transitions += listing.len() as u64;
-        let (lib, names, ptrs) = Self::build_tetris(g, listing, abs_sinks);
+        let (lib, names, ptrs) = Self::build_tetris(g, listing, variant);
         let res = guard(|| {
             lib.dep_order().map(|v| v.iter().map(|p| Self::idx_of(&names, &p.read().unwrap().name)).collect::<Vec<usize>>()).map_err(|e| format!("{e:?}"))
         });
-        self.judge(key, if abs_sinks { "tetris-dep_order+abstract-only-sinks" } else { "tetris-dep_order" }, g, listing, res, cx);
+        self.judge(key, ["tetris-dep_order", "tetris-dep_order+abstract-only-sinks", "tetris-dep_order+both-views"][variant as usize], g, listing, res, cx);
         let res = guard(|| {
             tetris::conv::proto::ProtoExporter::export(&lib).map(|p| p.cells.iter().map(|c| Self::idx_of(&names, &c.name)).collect::<Vec<usize>>()).map_err(|e| format!("{e:?}"))
         });
-        self.judge(key, if abs_sinks { "tetris-proto-export+abstract-only-sinks" } else { "tetris-proto-export" }, g, listing, res, cx);
+        self.judge(key, ["tetris-proto-export", "tetris-proto-export+abstract-only-sinks", "tetris-proto-export+both-views"][variant as usize], g, listing, res, cx);
         // Placer::place walks the cells in dependency order as well
         let res = guard(|| {
             tetris::placer::Placer::place(lib, Self::empty_stack())
@@ -557,7 +576,7 @@ impl Driver for C17 {
         let m = tier.pick(3, 4);
         Describe {
             rule: format!(
-                "generic utils::DepOrder: every labelled digraph on 1..=4 nodes including self-loops (2^(n*n)) x every ordered non-empty sub-list of the nodes as the item slice (so reachable != all); every loop-free digraph on 5 nodes (2^20) x {} listing orders. Embedded orderers through public entry points, every digraph on 1..={m} nodes with self-loops x every listing permutation, edges realised as instances / SREF+AREF / relative placements, raw and tetris graphs additionally with every sink cell abstract-only (no layout view): raw DepOrder::order and Library::to_proto (cell list order), Library::from_gds (imported cell order), tetris Library::dep_order, tetris ProtoExporter::export, Placer::place (cell graph), and Placer::place over every functional relation graph on 1..={m} instances ((n+1)^n: chains, stars, trees, self-loops, cycles) x every listing permutation. A state is (orderer, graph, listing); non-trivial = graph has at least one edge. Oracle: reachable set by DFS, cycle by Kahn elimination; Ok order must be exactly the reachable set, duplicate-free, every node after all its dependencies; reachable cycle => Err.",
+                "generic utils::DepOrder: every labelled digraph on 1..=4 nodes including self-loops (2^(n*n)) x every ordered non-empty sub-list of the nodes as the item slice (so reachable != all); every loop-free digraph on 5 nodes (2^20) x {} listing orders. Embedded orderers through public entry points, every digraph on 1..={m} nodes with self-loops x every listing permutation, edges realised as instances / SREF+AREF / relative placements, raw and tetris graphs additionally with every sink cell abstract-only (no layout view) and with every cell holding both an abstract and a layout view: raw DepOrder::order and Library::to_proto (cell list order), Library::from_gds (imported cell order), tetris Library::dep_order, tetris ProtoExporter::export, Placer::place (cell graph), and Placer::place over every functional relation graph on 1..={m} instances ((n+1)^n: chains, stars, trees, self-loops, cycles) x every listing permutation. A state is (orderer, graph, listing); non-trivial = graph has at least one edge. Oracle: reachable set by DFS, cycle by Kahn elimination; Ok order must be exactly the reachable set, duplicate-free, every node after all its dependencies; reachable cycle => Err.",
                 if tier.is_thorough() { "all 120" } else { "8 (identity, reverse, 4 rotations, one shuffle)" }
             ),
             assumptions: vec!["Placer::place returns the placed library, not the order: only Ok/Err, completeness (all instances absolute) are judged there".into()],
@@ -774,7 +793,7 @@ impl Driver for C17 {
         None
     }
     fn guards(&self, tier: Tier, stats: &Stats, _d: u64) -> Result<(), String> {
-        require_tags(stats, &["raw-abstract-only-sinks", "tetris-abstract-only-sinks", "part-g", "part-g-n4", "part-g-n5", "part-r-n3", "part-d-n3", "part-t-n3", "part-p-n3", "chain"])?;
+        require_tags(stats, &["raw-abstract-only-sinks", "tetris-abstract-only-sinks", "raw-both-views", "tetris-both-views", "part-g", "part-g-n4", "part-g-n5", "part-r-n3", "part-d-n3", "part-t-n3", "part-p-n3", "chain"])?;
         if tier.is_thorough() {
             require_tags(stats, &["part-r-n4", "part-d-n4", "part-t-n4", "part-p-n4"])?;
         }
